@@ -115,4 +115,46 @@ example (g : Nat → Node → Stmt) (f sc : Nat) (rest : Clauses) (e : Sig) (s :
     · exact PlainStr.of_raw rfl rfl rfl
     · cases hx
 
+/-! `try {⏎not null⏎} except r"E1" as e {⏎} except e {⏎}` — the two clauses:
+`except|70|…|3|3|3;string|5|4531|0|0|3|10|0;as|43|6173|0|0|3|16|1;identifier|7|65|0|1|3|19|0;statements|-|-|0|0|0|0|0`
+`except|70|…|4|3|2;identifier|7|65|0|1|4|10|0;statements|-|-|0|0|0|0|0` -/
+def exTokE (line : Nat) (col : Int) : Tok := { exTok 7 "e" line col with identifier := true, val := [101] }
+def exIdE (line : Nat) (col : Int) : Node := exNode "identifier" (some (exTokE line col)) []
+def exAs : Node := exNode "as" (some (exTok 43 "as" 3 16)) [some (exIdE 3 19)]
+def exS5 : Node := exNode "string" (some (exTok 5 "E1" 3 10)) []
+def exExc5 : Node := exNode "except" (some (exTok 70 "except" 3 3)) [some exS5, some exAs, some exStm]
+def exExc6 : Node := exNode "except" (some (exTok 70 "except" 4 3)) [some (exIdE 4 10), some exStm]
+
+/-- `spec_first_listed_clause_as` on the real clause `except r"E1" as e { }` -/
+example (g : Nat → Node → Stmt) (f sc : Nat) (rest : Clauses) (e : Sig) (s : St) :
+    Spec.handle (clauseOfNode g (f+2) sc exExc5 rest) e s =
+      if ([exS5].map textOf).any (fun b => bytesToString b == errType e) then
+        (match Spec.exec (bindBody g sc exExc5 exStm [101] e) s with
+         | (.normal _, s2) => (.normal Val.null, s2)
+         | (o, s2) => (o, s2))
+      else Spec.handle rest e s := by
+  have ho : clauseShape exExc5 = .other := by
+    simp [clauseShape, exExc5, exS5, exAs, exIdE, exStm, exNode, Ecal.Parse.Node.children, Ecal.Parse.Node.name, allSome]
+  have hb : bindingShape exExc5 = .typedAs exS5 [] exAs (exIdE 3 19) (exTokE 3 19) exStm := by
+    simp [bindingShape, exExc5, exS5, exAs, exIdE, exStm, exNode, Ecal.Parse.Node.children, Ecal.Parse.Node.name,
+      Ecal.Parse.Node.tok, allSome]
+  refine spec_first_listed_clause_as g f sc exExc5 exS5 exAs (exIdE 3 19) exStm [] (exTokE 3 19) rest e s ho hb ?_
+  intro x hx
+  rcases List.mem_cons.1 hx with rfl | hx
+  · exact PlainStr.of_raw rfl rfl rfl
+  · cases hx
+
+/-- `spec_binding_clause` on the real clause `except e { }` -/
+example (g : Nat → Node → Stmt) (f'' sc : Nat) (rest : Clauses) (e : Sig) (s : St) :
+    Spec.handle (clauseOfNode g f'' sc exExc6 rest) e s =
+      (match Spec.exec (bindBody g sc exExc6 exStm [101] e) s with
+       | (.normal _, s2) => (.normal Val.null, s2)
+       | (o, s2) => (o, s2)) := by
+  have ho : clauseShape exExc6 = .other := by
+    simp [clauseShape, exExc6, exIdE, exStm, exNode, Ecal.Parse.Node.children, Ecal.Parse.Node.name, allSome]
+  have hb : bindingShape exExc6 = .bind (exIdE 4 10) exStm [101] := by
+    simp [bindingShape, varOf, exExc6, exIdE, exTokE, exStm, exNode, exTok, Ecal.Parse.Node.children, Ecal.Parse.Node.name,
+      Ecal.Parse.Node.tok, allSome]
+  exact spec_binding_clause g f'' sc exExc6 (exIdE 4 10) exStm [101] rest e s ho hb
+
 end Ecal.Props.C04
